@@ -74,15 +74,20 @@ package storage
 //@ func (WalletDB).GetMintQuoteById
 //@   trusted
 //@   pure
-//@ func (WalletDB).SaveMeltQuote
+// the stored melt quote carries the keyset its NUT-08 change outputs were derived from (ghost wdb.meltchange)
+//@ func (WalletDB).SaveMeltQuote(mq)
 //@   trusted
-//@   pure
+//@   modifies wdb.meltchange
+//@   ensures err == nil ==> wdb.meltchange == upd(old(wdb.meltchange), mq.QuoteId, mq.ChangeKeysetId)
+//@   ensures err != nil ==> wdb.meltchange == old(wdb.meltchange)
 //@ func (WalletDB).GetMeltQuotes
 //@   trusted
 //@   pure
-//@ func (WalletDB).GetMeltQuoteById
+//@ func (WalletDB).GetMeltQuoteById(id)
 //@   trusted
 //@   pure
+//@   fresh
+//@   ensures result != nil ==> result.QuoteId == id && result.ChangeKeysetId == wdb.meltchange[id]
 //@ func (WalletDB).SaveMnemonicSeed
 //@   trusted
 //@   pure
